@@ -1503,6 +1503,87 @@ class Engine:
                     out.append((s2, None))
         return [(s, None if sig == ("broke",) else sig) for s, sig in out]
 
+    def st_While(self, stmt, st):
+        """Hoare rule for `while c: body` with an invariant supplied by the property module:
+        contracts['while:invariant'](engine, stmt, state) -> a Python EXPRESSION (ast) over the program variables.
+        Generated obligations (collected in state.ghost['while_obls'] as (name, state, goal)):
+           entry         the invariant holds when the loop is reached
+           preservation  from an arbitrary state (the variables assigned in the body are havocked) in which the invariant and the
+                         condition hold, the body re-establishes the invariant
+        After the loop: the assigned variables are havocked, the invariant holds and the condition is false.  Exceptions raised by the
+        condition or the body leave the loop (from the havocked state).  break / continue / return / else are outside the rule."""
+        hook = self.contracts.get("while:invariant")
+        if hook is None or stmt.orelse:
+            raise Undecided("while loop without an invariant")
+        inv_expr = hook(self, stmt, st)
+        if inv_expr is None:
+            raise Undecided("while loop: no invariant for this loop")
+        extra_fn = None
+        if isinstance(inv_expr, tuple):          # (expression, function(engine, state) -> further z3 conjunct over the environment)
+            inv_expr, extra_fn = inv_expr
+        assigned = sorted({n.id for x in stmt.body for n in ast.walk(x) if isinstance(n, ast.Name) and isinstance(n.ctx, ast.Store)})
+        for x in stmt.body:
+            for n in ast.walk(x):
+                if isinstance(n, (ast.Break, ast.Continue, ast.Return)):
+                    raise Undecided("while loop with break / continue / return")
+        obls = []
+
+        def holds(state, expr):
+            out = []
+            for s, v in self.ev(expr, state):
+                f = z3.BoolVal(False) if isinstance(v, VExc) else self.truth(v, s)
+                if extra_fn is not None and not isinstance(v, VExc):
+                    f = z3.And(f, extra_fn(self, s))
+                out.append((s, f))
+            return out
+
+        def havoc(state, tag):
+            state.env = dict(state.env)
+            for name in assigned:
+                if name in state.env and isinstance(state.env[name], (VList, VObj, VMap)):
+                    raise Undecided(f"while loop rebinds the heap object {name}")
+                state.env[name] = VRef(fresh(f"{name}_{tag}", Ref))
+            return state
+        for s, f in holds(st.fork(), inv_expr):
+            obls.append((f"while@{stmt.lineno}.invariant_holds_on_entry", s, f))
+        exits = []
+        # preservation
+        s1 = havoc(st.fork(), "it")
+        for s2, f in holds(s1, inv_expr):
+            s2.assume(f)
+            for s3, c in self.ev(stmt.test, s2):
+                if isinstance(c, VExc):
+                    exits.append((s3, ("raise", c)))
+                    continue
+                for s4, side in self.split(s3, self.truth(c, s3)):
+                    if not side:
+                        continue
+                    for s5, sig in self.exec_block(stmt.body, s4):
+                        if sig is None:
+                            for s6, g in holds(s5, inv_expr):
+                                obls.append((f"while@{stmt.lineno}.invariant_preserved", s6, g))
+                        elif sig[0] == "raise":
+                            exits.append((s5, sig))
+                        else:
+                            raise Undecided("while body leaves with " + sig[0])
+        # after the loop
+        out = []
+        s7 = havoc(st, "end")
+        for s8, f in holds(s7, inv_expr):
+            s8.assume(f)
+            for s9, c in self.ev(stmt.test, s8):
+                if isinstance(c, VExc):
+                    exits.append((s9, ("raise", c)))
+                    continue
+                for s10, side in self.split(s9, self.truth(c, s9)):
+                    if not side:
+                        s10.ghost = dict(s10.ghost)
+                        out.append((s10, None))
+        for s, _ in out + exits:
+            s.ghost = dict(s.ghost)
+            s.ghost["while_obls"] = s.ghost.get("while_obls", []) + obls
+        return out + exits
+
     def st_Break(self, stmt, st):
         return [(st, ("break",))]
 
